@@ -261,7 +261,7 @@ def main(argv):
         todo = []
         if s is None:
             for ls in LONG:
-                for ts, sh in ((0.1, 0), (0.1, 200.0), (0.3, 0.7)):
+                for ts, sh in ((0.1, 0), (0.1, 200.0), (0.3, 0.7), (1 / 3, 0), (2.5e-7, 0.1234567)):  # (not whole microseconds either)
                     todo.append({"s": ls, "timespan": ts, "shift": sh, "lookup": 1, "raise_stopped": False})
             s = ""
             for c in todo:
